@@ -26,6 +26,10 @@ LocksFreeOK(blockedLocks) == blockedLocks = {}
 (*   [ev |-> "end",   o, lock]   ... and left                               *)
 (*   [ev |-> "freeze"]           Freeze() has returned                      *)
 (*   [ev |-> "unfreeze"]         the harness is about to call Unfreeze()    *)
+(*   [ev |-> "cancel", o, lock]  the harness cancels the context of o,      *)
+(*                               which the wrapper holds back (a schedule   *)
+(*                               event like the others: the three clauses   *)
+(*                               must hold whatever was cancelled)          *)
 (*   [ev |-> "quiet", blocked]   every goroutine is parked; blocked = the   *)
 (*                               called operations that have not started    *)
 (* in the order of a global atomic clock.  r.strict = FALSE for free       *)
